@@ -4,6 +4,7 @@ import (
 	"bytes"
 	"fmt"
 	"runtime"
+	"runtime/debug"
 	"runtime/metrics"
 	"strings"
 
@@ -187,10 +188,13 @@ func hexPrefix(data []byte) string {
 	return s
 }
 
+// memProfile returns cumulative allocated bytes per allocation site. Two
+// collections publish every allocation made so far (the profile lags by two
+// cycles); freeing to the OS afterwards keeps a huge dead block from being
+// re-used (and zeroed, page by page) by the next big allocation.
 func memProfile() map[[32]uintptr]int64 {
 	runtime.GC()
-	runtime.GC()
-	runtime.GC()
+	debug.FreeOSMemory()
 	n, _ := runtime.MemProfile(nil, true)
 	var recs []runtime.MemProfileRecord
 	for {
@@ -256,14 +260,17 @@ func checkOne(entry int, data []byte) outcome {
 	if a1-a0 <= bound {
 		return outcome{Status: st}
 	}
-	// confirm with the exact counter on a second run
-	var m0, m1 runtime.MemStats
-	runtime.ReadMemStats(&m0)
-	_, pv2, _ := guarded(entry, data)
-	runtime.ReadMemStats(&m1)
-	used := m1.TotalAlloc - m0.TotalAlloc
-	if pv2 != nil || used <= bound {
-		return outcome{Status: st}
+	used := a1 - a0
+	if used-bound < 4<<20 {
+		// close to the bound: confirm with the exact counter on a second run
+		var m0, m1 runtime.MemStats
+		runtime.ReadMemStats(&m0)
+		_, pv2, _ := guarded(entry, data)
+		runtime.ReadMemStats(&m1)
+		used = m1.TotalAlloc - m0.TotalAlloc
+		if pv2 != nil || used <= bound {
+			return outcome{Status: st}
+		}
 	}
 	leaf, site, where, grown := attribute(entry, data)
 	if used <= bound+gobChunk && uint64(grown) <= gobChunk &&
